@@ -14,6 +14,7 @@ import (
 	"sync/atomic"
 
 	"github.com/hedzr/logg/slog"
+	errorsv3 "gopkg.in/hedzr/errors.v3"
 
 	"verifharness/gen"
 	"verifharness/mon"
@@ -87,6 +88,9 @@ func c08stress(c *Ctx) {
 			parent int
 		}
 		var lgs []lgT
+		var marks []string // per logger: the literal prefix of its timestamp layout ("" = default layout)
+		// severities nobody registered (and nobody has logged yet in this process): their tags are derived on first use
+		freshLevels := []slog.Level{slog.Level(6000 + idx*8), slog.Level(6001 + idx*8), slog.Level(6002 + idx*8), slog.Level(-6000 - idx*8)}
 		mkw := func(i int) mon.W {
 			shape := gen.Pick(r, []mon.Shape{mon.ShapePlain, mon.ShapeCloser, mon.ShapeLvlPlain})
 			w := mon.New(log, fmt.Sprintf("W%d", i), shape)
@@ -135,6 +139,15 @@ func c08stress(c *Ctx) {
 			if useCtx {
 				e.SetContextKeys("cid", ctxKeyT{"rid"})
 			}
+			// a timestamp layout of the logger's own (coarse: no sub-second part) that starts with the logger's letter, and
+			// a zone mode: a record shows ITS logger's layout
+			mark := ""
+			if r.Bool() {
+				mark = "q" + string(rune('a'+i)) + "|"
+				e.SetTimeFormat(mark + gen.Pick(r, []string{"15:04:05", "15:04", "2006-01-02T15:04:05Z07:00", "Jan _2 15:04:05 MST"}))
+				e.SetUTCMode(r.Bool())
+			}
+			marks = append(marks, mark)
 			lgs = append(lgs, lgT{e, f, fmt.Sprintf("W%d", i), own, parent})
 		}
 		// expected key sets per logger
@@ -197,6 +210,9 @@ func c08stress(c *Ctx) {
 						}
 					}
 					args := []any{"id", id, "a1", id + "-a1", "n", k, sharedCallGroup, slog.Group("pc", "id", id, "x", k), "err", errShared, "spy", ctxSpy{g, spyMu, spyM}}
+					if gr.P(15) {
+						args = append(args, "serr", errorsv3.New("stack-carrying error of call %s", id)) // raised here, by this goroutine
+					}
 					// jump above the pooled size hint now and then, from several goroutines at once
 					if gr.P(3) {
 						for j := 0; j < 150+gr.Intn(200); j++ {
@@ -242,7 +258,11 @@ func c08stress(c *Ctx) {
 					case 2:
 						l.InfoContext(ctx, msg, args...)
 					default:
-						l.LogAttrs(ctx, slog.ErrorLevel, msg, args...)
+						lv := slog.ErrorLevel
+						if gr.P(40) {
+							lv = freshLevels[gr.Intn(len(freshLevels))]
+						}
+						l.LogAttrs(ctx, lv, msg, args...)
 					}
 					if withCtx {
 						atomic.AddInt64(&ctxCalls, 1)
@@ -314,6 +334,11 @@ func c08stress(c *Ctx) {
 				continue
 			}
 			id, why := c08judge(lgs[li].f, e.Data, expKeys[li], multiline, extraLines)
+			if why == "" && marks[li] != "" {
+				if d, err := decodeRecord(lgs[li].f, e.Data, true, false); err == nil && !strings.HasPrefix(d.Time, marks[li]) {
+					why = fmt.Sprintf("the timestamp %q does not start with %q, the literal prefix of this logger's own layout", d.Time, marks[li])
+				}
+			}
 			if why != "" {
 				bad++
 				c.R.Violation(idx, "torn-or-corrupt", "C08/record/"+lgs[li].f.String(), fmt.Sprintf("payload at %s is not the complete record of exactly one call: %s\npayload: %s", e.W, why, q(clip(string(e.Data), 1500))), desc)
@@ -472,7 +497,7 @@ func c08judge(f Format, p []byte, ownKeys []string, multiline bool, extraLines i
 		allowed[k] = true
 	}
 	for k := range got {
-		if _, ok := want[k]; ok || k == "n" || k == "pc.x" || k == "err" || k == "err.message" || allowed[k] || (strings.HasPrefix(k, "x") && len(k) == 4) {
+		if _, ok := want[k]; ok || k == "n" || k == "pc.x" || k == "err" || k == "err.message" || k == "serr" || strings.HasPrefix(k, "serr.") || allowed[k] || (strings.HasPrefix(k, "x") && len(k) == 4) {
 			continue
 		}
 		return id, fmt.Sprintf("unexpected attribute %s=%q", k, got[k])
